@@ -239,7 +239,10 @@ def in_parallel(fn, cases, min_chunk=1000):
     """Cases are independent lines (each carries its whole input; harness and driver keep no state
     between lines), so a long list is run in several processes at once, order preserved."""
     n = len(cases)
-    workers = min(max(1, (os.cpu_count() or 2) - 2), n // min_chunk)
+    cpus = max(1, (os.cpu_count() or 2) - 2)
+    # many lines, or few but large ones (container files of hundreds of kilobytes)
+    nbytes = sum(len(c) for c in cases)
+    workers = min(cpus, max(n // min_chunk, min(n // 4, nbytes // 2_000_000)))
     if workers < 2:
         return fn(cases)
     size = (n + workers - 1) // workers
